@@ -901,6 +901,52 @@ def r1911(ctx):
             ctx.bad(rid, s_, f"update_node stores `{short(s_.value, 50)}`: the rebuilt lines pass through a transformation before they are stored; identical lines (per-atom entries of &VELOCITY / &COORD, repeated keywords) are merged or reordered, so entries that were not requested change and fewer lines than atoms are written", construct=f"update_node: node.data = {short(s_.value, 50)}")
 
 
+def r1912(ctx):
+    """A requested entry is recognised by membership, not by the truth value of what is requested:
+    in _modify_input the branch that replaces a template line is taken under `key in settings`
+    (0, 0.0 and "" are legal values - e.g. nsteps = 0 for the zero-step velocity generation run)."""
+    rid = "R-19.12"
+    tree = ctx.tree
+    f = tree.func(ENGBASE, "EngineBase._modify_input")
+    ps = [a.arg for a in f.args.args]
+    sp = "settings" if "settings" in ps else None
+    if sp is None:
+        raise AnalysisError("R-19.12: _modify_input has no `settings` parameter")
+    fl = flow_of(f)
+    cfg = fl.cfg
+    # the replacing assignment: a line built from a value of `settings`
+    repl = []
+    for n in walk_local(f):
+        if isinstance(n, ast.Assign) and isinstance(n.value, ast.JoinedStr):
+            deps = fl.deps(n.value, cfg.node_of(n))
+            if any(kind in ("param", "free") and key.startswith(sp) for kind, key in deps):
+                loops = [x for x in loops_of(n) if isinstance(x, ast.For) and "items" not in ast.unparse(x.iter)]
+                if loops:
+                    repl.append(n)
+    if not repl:
+        raise AnalysisError("R-19.12: the statement that replaces a template line with the requested value was not found")
+    for n in repl:
+        facts = [(e, t) for e, t, _ in cfg.guards(cfg.node_of(n))]
+        member = any(t and isinstance(e, ast.Compare) and len(e.ops) == 1 and isinstance(e.ops[0], ast.In) and ast.unparse(e.comparators[0]).replace(".keys()", "") == sp for e, t in facts) \
+            or any((not t) and isinstance(e, ast.Compare) and len(e.ops) == 1 and isinstance(e.ops[0], ast.NotIn) and ast.unparse(e.comparators[0]).replace(".keys()", "") == sp for e, t in facts)
+        truthy = []
+        for e, t in facts:
+            if isinstance(e, ast.Name):
+                srcs = fl.deps(e, cfg.node_of(n))
+                if any(kind in ("param", "free") and key.startswith(sp) for kind, key in srcs):
+                    truthy.append(e.id)
+            if isinstance(e, ast.Call) and isinstance(e.func, ast.Attribute) and e.func.attr == "get" and ast.unparse(e.func.value) == sp:
+                truthy.append(short(e, 30))
+            if isinstance(e, ast.Subscript) and ast.unparse(e.value) == sp:
+                truthy.append(short(e, 30))
+        if truthy:
+            ctx.bad(rid, n, f"_modify_input replaces a template line only when the requested value (`{truthy[0]}`) is truthy: a request for 0 / 0.0 (nsteps = 0 for the zero-step velocity generation, nstvout = 0, ...) is dropped, the old line stays and - the keyword being marked as written - the entry is not appended either", construct="_modify_input: requested value tested by truthiness")
+        elif member:
+            ctx.ok(rid, n, "a template line is replaced when its key is among the requested settings (membership test; 0 is a value)")
+        else:
+            ctx.bad(rid, n, "the replacement of a template line in _modify_input is not guarded by `key in settings`", construct="_modify_input: replacement guard")
+
+
 def run(ctx):
     ctx.rule("R-19.6", "the flattened box matrix has the element order of the g96 BOX record (folded from the source, comprehensions included)", floor=1)
     ctx.rule("R-19.10", "input-template editing: writer and reader split `key <delim> value` with the same regular expression, whose key group is lazy (regex syntax trees compared)", floor=3)
@@ -918,6 +964,8 @@ def run(ctx):
     ctx.attempt(r1910, ctx)
     ctx.rule("R-19.11", "editing a CP2K section is local: one line out per line in, unaddressed lines kept, the rebuilt list stored as a plain copy", floor=2)
     ctx.attempt(r1911, ctx)
+    ctx.rule("R-19.12", "_modify_input recognises a requested entry by membership in the settings, not by the truth value of the requested value", floor=1)
+    ctx.attempt(r1912, ctx)
     from .shared import role_agreement, handed_out_buffers
     from .c13 import readers
     for rf in readers(ctx.tree):
@@ -929,6 +977,8 @@ def run(ctx):
 
 
 VARIANTS = [
+    B("c19-requested-value-by-truthiness", ENGBASE, "                        if keyword_strip in settings:\n                            to_write = f\"{keyword} {settings[keyword_strip]}\\n\"", "                        new_value = settings.get(keyword_strip)\n                        if new_value:\n                            to_write = f\"{keyword} {new_value}\\n\"", "R-19.12", control=True, why="seeded C19_h"),
+    K("c19-keep-requested-value-is-not-none", ENGBASE, "                        if keyword_strip in settings:\n                            to_write = f\"{keyword} {settings[keyword_strip]}\\n\"", "                        if keyword_strip in settings.keys():\n                            new_value = settings[keyword_strip]\n                            to_write = f\"{keyword} {new_value}\\n\""),
     B("c19-cp2k-section-lines-deduplicated", CP2K, "        node.data = list(new_data)\n    else:\n        node.data = list(data)", "    else:\n        new_data = list(data)\n    node.data = list(dict.fromkeys(new_data))", "R-19.11", control=True, why="seeded C19_g"),
     B("c19-cp2k-unaddressed-line-dropped", CP2K, "            else:\n                new_data.append(line)\n        for key in data:", "        for key in data:", "R-19.11"),
     K("c19-keep-cp2k-section-store-direct", CP2K, "        node.data = list(new_data)\n    else:", "        node.data = new_data\n    else:"),
